@@ -16,7 +16,7 @@ RULE = (
 ASSUMPTIONS = ["one-way latency 1 ms; datagrams with gap 0 are delivered back-to-back in one event-loop iteration", "OBSERVATION_RESET_TIME is 128 s (default tuning)", "block-wise scripts: a newer representation is announced with a fresher Observe value (staleness there comes from delayed / repeated datagrams only); the peer answers block fetches piggy-backed from the current version"]
 _BASE_MONITORS = {"failure_before_first_response": 4, "late_consumer": 100, "freshness_order": 800, "nothing_fresher_left": 300, "terminal_signal": 800, "after_end_wire": 200, "time_clause_exercised": 20, "clock_consulted": 1, "con_notification_acknowledged": 300, "cancelled_in_callback": 20}
 REQUIRED_MONITORS = {
-    "quick": dict(_BASE_MONITORS, blockwise_observation=300, blockwise_body=800, blockwise_first_assembled=80, blockwise_notification_assembled=150, first_response_assembly_failed=12, notification_assembly_failed_end=15, cancelled_before_first_response=50, cancelled_by_application=70, after_signalled_end_wire=120, con_after_signalled_end=400, push_in_first_transfer_after_cancel=40),
+    "quick": dict(_BASE_MONITORS, blockwise_observation=250, blockwise_body=600, blockwise_first_assembled=80, blockwise_notification_assembled=150, first_response_assembly_failed=12, notification_assembly_failed_end=15, cancelled_before_first_response=50, cancelled_by_application=70, after_signalled_end_wire=120, con_after_signalled_end=400, push_in_first_transfer_after_cancel=40),
     "thorough": dict(_BASE_MONITORS, blockwise_observation=30000, blockwise_body=80000, blockwise_first_assembled=8000, blockwise_notification_assembled=15000, first_response_assembly_failed=1500, notification_assembly_failed_end=1500, cancelled_before_first_response=5000, cancelled_by_application=7000, after_signalled_end_wire=10000, con_after_signalled_end=40000, push_in_first_transfer_after_cancel=3000),
 }
 EXHAUSTIVE = {"permutations": "all orders of each base value set (length <= 5) for every consumer/path", "blockwise_mechanisms": "one deterministic block-wise script per (mechanism: change during the first transfer / during a notification's transfer, cancellation before the first response / during its transfer / after it / between / inside deliveries, notifications inside the first transfer after a cancellation with a peer slow by 3 ms / 0.5 s per block, undisturbed with each terminator) x request path x consumer"}
